@@ -40,6 +40,9 @@ CONTEXTS = [
     ("1 sub {}", lambda a: a.right, ARITH + ("id",)),
     ("c/any(v: v eq {})", lambda a: a.lambda_.expression.right, None),
     ("not ({} ne y) and z le {}", lambda a: a.right.right, None),
+    ("{}/seg/leaf eq 1", lambda a: a.left.owner.owner, ("id",)),
+    ("{}/coll/items/any(v: v gt 0)", lambda a: a.owner.owner.owner, ("id",)),
+    ("{}/leaf", lambda a: a.owner, ("id",)),
 ]
 
 
